@@ -144,6 +144,18 @@ func runWait(in waitIn) (out map[string]any) {
 		case "c":
 			w.Cancel(tc)
 			explicitEnd = true
+		case "tu":
+			// the deadline fires; while the Timeout events are being handed to a slow consumer (unbuffered channel), after
+			// the k-th of them, the runner receives a status update for object i.  Reported as two operations: the
+			// Timeout events, then the events of the update.
+			tev, uev := waitTimeoutWithUpdate(w, tc, rc, idx, anyInt(op[1]), anyInt(op[2]), op[3].([]any))
+			w.Cancel(tc)
+			explicitEnd = true
+			opEvs = append(opEvs, tev, uev)
+			if len(w.VerifPending()) == 0 {
+				everEmpty = true
+			}
+			continue
 		}
 		opEvs = append(opEvs, drain())
 		if len(w.VerifPending()) == 0 {
@@ -179,6 +191,61 @@ func runWait(in waitIn) (out map[string]any) {
 		}
 	}
 	return map[string]any{"start": startEvs, "ops": opEvs, "recon": recon, "ended": e, "late": drain()}
+}
+
+func waitTimeoutWithUpdate(w *taskrunner.WaitTask, tc *taskrunner.TaskContext, rc *cache.ResourceCacheMap, idx map[object.ObjMetadata]int,
+	k, i int, obs []any) (tev, uev [][]int) {
+	tev, uev = [][]int{}, [][]int{}
+	raw := make(chan event.Event)
+	tc2 := taskrunner.VerifWithEventChannel(tc, raw)
+	tdone := make(chan struct{})
+	udone := make(chan struct{})
+	go func() { w.VerifSendTimeoutEvents(tc2); close(tdone) }()
+	launched := false
+	launch := func() {
+		launched = true
+		id := waitID(i)
+		go func() {
+			defer close(udone)
+			rc.Put(id, obsToCache(id, obs))
+			if w.Identifiers().Contains(id) {
+				w.StatusUpdate(tc2, id)
+			}
+		}()
+		time.Sleep(2 * time.Millisecond) // the window in which an unsynchronised update would get through
+	}
+	nT := 0
+	td, ud := tdone, udone
+	for td != nil || ud != nil {
+		select {
+		case e := <-raw:
+			if e.Type != event.WaitType {
+				continue
+			}
+			j, ok := idx[e.WaitEvent.Identifier]
+			if !ok {
+				j = -1
+			}
+			code := waitEvCode[e.WaitEvent.Status]
+			if code == 3 {
+				tev = append(tev, []int{j, code})
+				nT++
+				if nT == k+1 && !launched {
+					launch()
+				}
+			} else {
+				uev = append(uev, []int{j, code})
+			}
+		case <-td:
+			td = nil
+			if !launched {
+				launch()
+			}
+		case <-ud:
+			ud = nil
+		}
+	}
+	return tev, uev
 }
 
 func genObs(rng *proto.Rng, appliedUID string, appliedGen int) []any {
@@ -256,6 +323,12 @@ func genWaitCase(rng *proto.Rng, maxObjs, maxOps int) waitIn {
 		}
 	}
 	hasEnd := len(in.Ops) > 0 && anyStr(in.Ops[len(in.Ops)-1][0]) != "u"
+	if !hasEnd && rng.Chance(1, 10) {
+		// the deadline fires and a status update arrives while the Timeout events are being delivered
+		i := rng.Intn(n)
+		in.Ops = append(in.Ops, []any{"tu", rng.Intn(n), i, genObs(rng, recUID(in.Objs[i]), recGen(in.Objs[i]))})
+		return in
+	}
 	if !hasEnd && rng.Chance(1, 12) { // the deadline fires / the run is cancelled at most once
 		in.Ops = append(in.Ops, []any{proto.Pick(rng, []string{"t", "c"})})
 		if rng.Chance(1, 2) {
